@@ -21,7 +21,8 @@ import VM.SetupIndep
                                                            = noncache) called once (VM.xRun); the answer carries `F <keys>`:
                                                            the ids the model says the file holds (n, n+1 = the DAG's parameters)
     O <inst> xrestart <slot> <k> <sel>^k <na> <value>^na   a fresh executor with from_cache = file <slot> called once
-    O <inst> xmk <xid> <k> <sel>^k                         an executor object is CREATED on the instance and kept (xid = 0,1,2,… in
+    O <inst> xmk <xid> <k> <sel>^k [C <slot>]              (C <slot>: with from_cache = file <slot>, read when the object is CALLED)
+                                                           an executor object is CREATED on the instance and kept (xid = 0,1,2,… in
                                                            creation order); nothing runs                 -> <id> <opidx> NOOP
     O <inst> xrun <xid> <na> <value>^na                    the kept executor object is called (VM.xRun on the instance AS IT IS NOW):
                                                            -> <id> <opidx> REFUSED  if the object was used before, else like call
@@ -199,8 +200,9 @@ def main : IO Unit := do
             files := r.1.files
           | [] => IO.println s!"{sid} {idx} PARSE"
         | "O" :: inst :: "xmk" :: _xid :: k :: r =>
-          let (sel, _) := takeNats k.toNat! r
-          xobjs := xobjs.push (inst.toNat!, XObj.fresh ⟨sel, fun _ => false, none, none⟩)
+          let (sel, r1) := takeNats k.toNat! r
+          let from? : Option Nat := match r1 with | ["C", slot] => slot.toNat? | _ => none
+          xobjs := xobjs.push (inst.toNat!, XObj.fresh ⟨sel, fun _ => false, none, from?⟩)
           IO.println s!"{sid} {idx} NOOP"
         | "O" :: _inst :: "xrun" :: xid :: r =>
           let args := match r with
@@ -213,7 +215,9 @@ def main : IO Unit := do
             let w : World Val := ⟨it, files⟩
             let r := xRun w o args
             if o.used then IO.println s!"{sid} {idx} REFUSED"
-            else IO.println (report sid idx n (xCfgOf it o.spec it.res args))
+            else match xStart w o.spec with
+              | none => IO.println s!"{sid} {idx} NOFILE"
+              | some start => IO.println (report sid idx n (xCfgOf it o.spec start args))
             insts := insts.setIfInBounds ix r.1.inst
             files := r.1.files
             xobjs := xobjs.setIfInBounds xid.toNat! (ix, r.2.1)
